@@ -166,7 +166,12 @@ def plan(prop, tier):
                 g(D=2, P=3, ops=("submit", "clean"), flags=["-probe"], S=(1, 3)),
                 g(D=1, P=1, ops=maint_ops, flags=["-probe"], S=(1, 7))]
         gens += [sc([G, G, G, G, "clean"], flags=["-probeend"], S=(1, 7)), sc([G, G, G, G], flags=["-probeend"], S=(1, 3), works=(1, 3)), sc([G, G, "clean", G, G], flags=["-probeend"], D=1, P=1, S=(1, 7)),
-                 sc([G, G, G, G], flags=["-probeend"], S=(1, 3), works=(1,), ties=True)]
+                 sc([G, G, G, G], flags=["-probeend"], S=(1, 3), works=(1,), ties=True),
+                 # nothing consolidated yet (no Clean): the best chain may run through a fork of a fork, and with runs of 7 /
+                 # 20 headers the exponential walk steps over the first header of the intermediate branch
+                 sc([G, G, G, G], flags=["-probeend"], S=(7, 20)),
+                 # chain, fork above genesis, fork of that fork
+                 sc([G, G, G, G, G], N=5, D=5, P=5, shape=(0, 1, 1, 3, 3), flags=["-probeend"], S=(7, 20, 33))]
         # (a prune depth of 0 - only the tip in memory - is outside the implementation's configuration space: the
         #  depth is the constant 10000; with the hook's depth 0 the locator is empty)
     elif prop == "C18":
